@@ -8,6 +8,7 @@
 
 mod c01;
 mod c04;
+mod cconc;
 mod ccorrupt;
 mod cmaint;
 mod cterm;
